@@ -20,7 +20,8 @@ class Entry:
 
 
 class Path:
-    def __init__(self, trail, feas_timeout_ms=3000):
+    def __init__(self, trail, feas_timeout_ms=3000, oracle=None):
+        self.oracle = oracle
         self.trail = trail
         self.pos = 0
         self.pc = []              # list of Terms (conjunction)
@@ -53,7 +54,10 @@ class Path:
         r = _feas_cache.get(key)
         if r is None:
             self.solver_calls += 1
-            r = lower.feasible(self.pc + [t], self.feas_timeout_ms)
+            if self.oracle is not None:
+                r = self.oracle.feasible(self.pc + [t])
+            else:
+                r = lower.feasible(self.pc + [t], self.feas_timeout_ms)
             if r is None:
                 self.unknown_feasibility += 1
                 r = True      # explore; an infeasible path only adds vacuous obligations
@@ -97,8 +101,9 @@ def explore(run, max_paths=200000, feas_timeout_ms=3000):
     """Calls run(path) once per feasible path; yields (path, outcome) where outcome is what run returned."""
     trail = []
     n = 0
+    oracle = lower.FeasSolver(feas_timeout_ms)
     while True:
-        p = Path(trail, feas_timeout_ms)
+        p = Path(trail, feas_timeout_ms, oracle)
         try:
             out = run(p)
         except AbortPath:
